@@ -70,7 +70,7 @@ func (c chanCase) wire() []byte {
 
 const (
 	hangAfter  = 10 * time.Second
-	idleWithin = 500 * time.Millisecond
+	idleWithin = 3 * time.Second
 )
 
 // harness is a hooked Conn on an in-memory transport with channel 0; a drainer
@@ -182,6 +182,24 @@ func (h *harness) sendAfter() *vh.Failure {
 	case runaway && ps > 131080:
 		return vh.Failf("C10/packsize-send-runaway", "the connection accepted packet size %d from ENVCHANGE (header length field %d): the next request would append packets of %d bytes forever (not executed)", ps, uint16(ps), ps-8)
 	}
+	// once a consequence of an illegal packet size has been recorded by this
+	// process, further instances are counted and not executed (they are slow)
+	predicted := ""
+	switch {
+	case ps >= 9 && ps <= 65535:
+	case ps < 8:
+		predicted = "C10/panic-tds.NewPacket-makeslice-len"
+	case runaway:
+		predicted = "C10/packsize-send-runaway"
+	case ps%65536 < 8:
+		predicted = "C10/panic-tds.PacketQueue.WriteBytes-slice-bounds"
+	case ps >= 1<<22:
+		predicted = "C10/alloc-disproportionate-tds.NewPacket"
+	}
+	if predicted != "" && isReported(predicted) {
+		vh.Excluded(predicted)
+		return nil
+	}
 	before := h.pipe.WrittenLen()
 	done := make(chan sendRes, 1)
 	var r sendRes
@@ -250,13 +268,18 @@ func (h *harness) sendAfter() *vh.Failure {
 // ---- running a case
 
 // readerPackets splits wire bytes the way Packet.ReadFrom does: header, then
-// length-8 bytes of body. It stops at a header that announces less than a header or
-// more than there is.
+// length-8 bytes of body. It stops at a header that announces more than there is.
 func readerPackets(wire []byte) []pktDesc {
 	var out []pktDesc
 	for len(wire) >= 8 {
 		p := pktDesc{Type: wire[0], Status: wire[1], Length: uint16(wire[2])<<8 | uint16(wire[3]), Channel: uint16(wire[4])<<8 | uint16(wire[5]), Nr: wire[6], Window: wire[7]}
-		if p.Length < 8 || int(p.Length) > len(wire) {
+		if p.Length < 8 {
+			// a reader that rejects the header goes on with the next 8 bytes (one
+			// that does not swallows the rest: nothing more to parse then)
+			wire = wire[8:]
+			continue
+		}
+		if int(p.Length) > len(wire) {
 			break
 		}
 		p.Data = wire[8:p.Length]
@@ -400,8 +423,34 @@ func runWrite(h *harness, c chanCase, big bool, step *atomic.Value) *vh.Failure 
 	return h.sendAfter()
 }
 
+// spinThreshold: a header-only packet costs the reader one zero-length read; far more
+// of them than the input has headers means that it reads into a full buffer forever.
+func spinThreshold(wire []byte) int { return 1000 + len(wire)/8 }
+
+const classReaderSpin = "C10/reader-spins-on-zero-length-reads"
+
+// predictSpin: the reader comes to a header that announces less than 8 bytes and at
+// least 65528 bytes follow (what it takes to fill the body buffer it makes for it).
+func predictSpin(wire []byte) bool {
+	for len(wire) >= 8 {
+		l := int(wire[2])<<8 | int(wire[3])
+		if l < 8 {
+			return len(wire)-8 >= 65528+l
+		}
+		if l > len(wire) {
+			return false
+		}
+		wire = wire[l:]
+	}
+	return false
+}
+
 func runRead(h *harness, c chanCase, big bool, step *atomic.Value) *vh.Failure {
 	wire := c.wire()
+	if isReported(classReaderSpin) && predictSpin(wire) {
+		vh.Excluded(classReaderSpin)
+		return nil
+	}
 	readerDone := make(chan *caught, 1)
 	go func() { readerDone <- try(h.conn.ReadFrom) }()
 	var readerExit bool
@@ -422,7 +471,7 @@ func runRead(h *harness, c chanCase, big bool, step *atomic.Value) *vh.Failure {
 				idle = true
 				return
 			}
-			if time.Now().After(deadline) {
+			if _, zero, _, _ := h.pipe.Stats(); zero > spinThreshold(wire) || time.Now().After(deadline) {
 				return
 			}
 		}
@@ -439,12 +488,12 @@ func runRead(h *harness, c chanCase, big bool, step *atomic.Value) *vh.Failure {
 	}
 	if !idle && !readerExit {
 		reads, zero, given, _ := h.pipe.Stats()
-		if zero > 1000+len(wire)/8 {
+		if zero > spinThreshold(wire) {
 			first := "?"
 			if _, err := rc.ParsePackets(wire); err != nil {
 				first = err.Error()
 			}
-			return vh.Failf("C10/reader-spins-on-zero-length-reads", "after %d of %d bytes the reader neither waits for more input nor reports an error: it issued %d zero-length reads (%d reads with data) and keeps going; first irregularity of the stream: %s; head: %s",
+			return vh.Failf(classReaderSpin, "after %d of %d bytes the reader neither waits for more input nor reports an error: it issued %d zero-length reads (%d reads with data) and keeps going; first irregularity of the stream: %s; head: %s",
 				given, len(wire), zero, reads, first, hexHead(wire, 24))
 		}
 		return vh.Failf("C10/hang-reader-busy", "the reader did not become idle within %v after %d of %d bytes were delivered (%d reads, %d zero-length reads); head: %s", idleWithin, given, len(wire), reads, zero, hexHead(wire, 24))
@@ -518,7 +567,7 @@ func genResponse(rt *rapid.T) ([]rc.P, string) {
 // unsafe on a tree that accepts them (2^27+8: endless 128 MiB packets) are left to the
 // prediction in sendAfter and not generated here
 var hostileSizes = []string{"0", "1", "7", "8", "9", "10", "255", "511", "512", "513", "2048", "65535", "65536", "65537", "65543", "65544", "65545", "70000", "131080",
-	"-5", "-1", "-8", "-65528", "abc", "", " 8", "+8", "0x10", "8.0", "134217728", "99999999999999999999", "08", "00000009"}
+	"-5", "-1", "-8", "-65528", "abc", "", " 8", "+8", "0x10", "8.0", "134217728", "8388617", "99999999999999999999", "08", "00000009"}
 
 func genCuts(rt *rapid.T, n int, label string) []int {
 	if n <= 1 {
